@@ -97,11 +97,10 @@ def corrupt_case(rng, case):
         return None
     c = json.loads(json.dumps(case))
     kind = rng.choice(["score", "drop", "cfg"])
-    if kind == "score" or (kind == "drop" and len(c["result"]) < 2):
+    if kind == "score":
         c["result"][0]["score"] += 40 * 10000 * c["nU"]  # +0.4
     elif kind == "drop":
-        c["result"].sort(key=lambda r: r["score"])
-        del c["result"][0]
+        c["result"] = []  # nothing reported although a feasible explanation exists
     else:
         r = c["result"][0]
         r["cfgs"] = sorted(r["cfgs"] + [r["cfgs"][0] if r["cfgs"] else 1])
